@@ -169,7 +169,8 @@ CLAIMED = {
               'with day strides is the stride-aligned bin start; interval normalisation; account decomposition laws, possign, '
               'sort keys; substr = Python slice laws; maxwidth = `textwrap.shorten` modelled chunk by chunk: the result never '
               'exceeds the width (`C18_maxwidth_bound`, every text), a text that fits is returned with its white space '
-              'normalised and nothing else (`C18_maxwidth_fits`), widths below 5 are errors; abs/neg/safediv/round (exponent, exactness, half-even error bound); casts '
+              'normalised and nothing else (`C18_maxwidth_fits`), every result is a prefix of the normalised chunks, possibly followed by the '
+              'placeholder, or the bare placeholder (`C18_maxwidth_shape`), widths below 5 are errors; abs/neg/safediv/round (exponent, exactness, half-even error bound); casts '
               'are total (value or NULL). Tied to the code by EXHAUSTIVE correspondence over the property\'s domains: every date '
               '1900-2100 x every unit/part, strides x origins, 605 account names, 341 strings x all index pairs in [-6,6], the same strings '
               'and longer texts x every width in [-1,14] for maxwidth, all '
